@@ -330,6 +330,10 @@ func JToStr(j J) (string, error) {
 
 // ---------------------------------------------------------------- values
 
+// how x/exp/eval.Variable(name) and batch.Ignore() are represented (checked by selftest)
+const VariableEntityType = "__cedar::variable"
+const IgnoreEntityType = "__cedar::ignore"
+
 func DecimalRaw(d types.Decimal) int64 { return *(*int64)(unsafe.Pointer(&d)) }
 
 func DecimalFromRaw(n int64) types.Decimal {
@@ -388,6 +392,11 @@ func ValueToJ(v types.Value) J {
 	case types.String:
 		return Obj{"k": "str", "s": StrToJ(string(t))}
 	case types.EntityUID:
+		if t.Type == VariableEntityType {
+			return Obj{"k": "unknown", "name": string(t.ID)}
+		} else if t.Type == IgnoreEntityType {
+			return Obj{"k": "ignore"}
+		}
 		return UIDToJ(t)
 	case types.Set:
 		els := []any{}
@@ -441,6 +450,11 @@ func JToValue(j J) (types.Value, error) {
 		return types.String(s), err
 	case "ent":
 		return JToUID(o)
+	case "unknown": // a named unknown of partial evaluation / batch authorization
+		name, _ := o["name"].(string)
+		return types.NewEntityUID(VariableEntityType, types.String(name)), nil
+	case "ignore":
+		return types.NewEntityUID(IgnoreEntityType, ""), nil
 	case "set":
 		arr, err := asArr(o["els"])
 		if err != nil {
